@@ -1,5 +1,5 @@
 PROPERTY = "C10"
-PACKAGES = ["./agglayer/grpc", "./aggsender/flows", "./agglayer/types"]
+PACKAGES = ["./agglayer/grpc", "./aggsender/flows", "./agglayer/types", "./aggsender", "./aggsender/statuschecker", "./aggsender/db"]
 T = "github.com/agglayer/aggkit/agglayer/types."
 G = "github.com/agglayer/aggkit/agglayer/grpc."
 F = "github.com/agglayer/aggkit/aggsender/flows."
@@ -22,9 +22,14 @@ for _sc, _nb, _ni, _ml, _pa, _gf, _tiers in [
             SCH[_sc], _nb, _ni, "32-byte" if _ml else "empty", ", aggchain params" if _pa else "", "" if _gf else ", global indexes of every byte length"),
         harness=T + "ZZVerif_C10_Sensitive", params={"SCHEME": _sc, "NB": _nb, "NI": _ni, "ML": _ml, "PARAMS": _pa, "GIFULL": _gf}, tiers=_tiers, reach=["compared"], time_limit_s=1500,
         bounds="both certificates fully symbolic (all field values, both index kinds); same shape on both sides"))
+OBLIGATIONS.append(dict(
+    name="C10.a the aggchain-prover flow signs the FEP commitment of the certificate it submits, with the configured signer, and attaches the answer (send loop, 3 events)",
+    harness="github.com/agglayer/aggkit/aggsender.ZZVerif_C02_Loop",
+    params={"K": 3, "NBLK": 3, "MASK": 0b111, "RETRY": 1, "GROW": 0, "FAULTS": 0, "PREFIX": 0, "CMASK": 0, "MAXSIZE": 0, "FLOW": 1}, reach=["end", "second height"],
+    time_limit_s=3000, max_paths=400000, bounds="see C02; assertions 'the last hash given to the signer is the commitment of the submitted certificate', 'the signer's answer is attached'"))
 ASSUMPTIONS = ["the submission service is a fake that records the request", "protobuf messages are plain structs (generated getters executed where used)",
                "Keccak as uninterpreted function"]
 ASSUMPTIONS.append("C10.c: equality of commitments is decided under Keccak collision-freeness (equal hashes of equal length have equal inputs, hashes of different "
                    "input length differ); a metadata field holding the hash of the empty string is the same as empty metadata by construction of the leaf")
-OUTSIDE = "the JSON copy stored in the node's database (encoding/json is not modelled): 'stored copy' is not claimed; signing inside the aggchain-proof flow " \
-          "(its commitment function is covered by C10.c); certificates of different shapes (different numbers of exits) in C10.c"
+OUTSIDE = "the JSON copy stored in the node's database (encoding/json is not modelled): 'stored copy' is not claimed; " \
+          "certificates of different shapes (different numbers of exits) in C10.c"
